@@ -1105,6 +1105,13 @@ func (x *Exec) indexAddr(fr *frame, instr *ssa.IndexAddr) Value {
 		if xv == nil {
 			x.goPanicRuntime("invalid memory address or nil pointer dereference")
 		}
+		if la, ok := (*xv).(*LazyArray); ok {
+			i := x.concreteInt(idx, "index into huge array")
+			if i < 0 || i >= la.n {
+				x.goPanicRuntime(fmt.Sprintf("index out of range [%d] with length %d", i, la.n))
+			}
+			return la.cell(i)
+		}
 		arr = (*xv).(Array)
 	case *SymPtr:
 		// pointer to array inside symbolic element: concretise outer index
